@@ -89,16 +89,21 @@ End Preempt.
 Lemma filter_view_ext a b minors :
   total a = total b -> free a = free b -> filter_view a minors = filter_view b minors.
 Proof. intros E1 E2. unfold filter_view. now rewrite E1, E2. Qed.
-Lemma alloc_core_ext scored infos t ou a b per count sh :
+Lemma alloc_core_ext kind scored infos t ou a b per count sh :
   total a = total b -> free a = free b ->
-  alloc_core scored infos t ou a per count sh = alloc_core scored infos t ou b per count sh.
+  alloc_core kind scored infos t ou a per count sh = alloc_core kind scored infos t ou b per count sh.
 Proof. intros E1 E2. unfold alloc_core. now rewrite (filter_view_ext a b _ E1 E2). Qed.
 
 Lemma eligible_count_ext a b minors per :
   free a = free b -> eligible_count a minors per = eligible_count b minors per.
 Proof. intros E. unfold eligible_count, eligible_minor. now rewrite E. Qed.
+Lemma part_short_ext kind a b minors count sh :
+  total a = total b -> free a = free b ->
+  part_short kind a minors count sh = part_short kind b minors count sh.
+Proof. intros E1 E2. unfold part_short, part_free_minor. now rewrite E1, E2. Qed.
 
 Section PreemptType.
+  Variable kind : Z.
   Variable ls : list ledger.
   Variable infos : list devinfo.
   Variable t : nat.
@@ -114,19 +119,20 @@ Section PreemptType.
   Let lp := ledger_p l (preempt_of l victims).
 
   Lemma alloc_type_on_sound al :
-    alloc_type_on ls infos t per count shared victims = Some al ->
+    pfit_t kind t (total l) per shared = true ->
+    alloc_type_on kind ls infos t per count shared victims = Some al ->
     (desired_count count <= maybe_count pl minors per)%nat.
   Proof.
-    unfold alloc_type_on. fold l. fold pl.
-    rewrite (alloc_core_ext false infos t (used l) pl lp) by reflexivity.
+    intros Pf. unfold alloc_type_on. fold l. fold pl.
+    rewrite (alloc_core_ext kind false infos t (used l) pl lp) by reflexivity.
     intros H.
     pose proof (ledger_p_fs l (preempt_of l victims) (lg_fs _ G)) as FSp.
     pose proof (ledger_p_used_nonneg l (preempt_of l victims) (lgood_used_nonneg _ G)) as Hup.
-    apply (alloc_core_sound infos t (used l) lp FSp (lg_tot _ G) Hup per count shared false Hcount)
+    apply (alloc_core_sound kind infos t (used l) lp FSp (lg_tot _ G) Hup per count shared false Hcount)
       in H as [Len [ND Hall]].
     rewrite <- Len, <- (map_length fst al). unfold maybe_count.
     apply NoDup_incl_length; auto. intros m Hm. apply in_map_iff in Hm as [a [<- Ha]].
-    destruct (Hall a Ha) as [_ [Hin [f [Ef [R Z]]]]].
+    destruct (Hall a Ha) as [_ [Hin [f [Ef [R Z]]]]]. specialize (R Pf).
     apply filter_In. split.
     - apply in_seq. split; [lia|]. cbn [Nat.add].
       destruct (Nat.lt_ge_cases (fst a) (length (free pl))) as [L|L]; auto.
@@ -143,23 +149,25 @@ Section PreemptType.
   Qed.
 
   Lemma alloc_type_on_complete :
-    alloc_type_on ls infos t per count shared victims = None ->
-    (eligible_count pl minors per < desired_count count)%nat.
+    alloc_type_on kind ls infos t per count shared victims = None ->
+    (eligible_count pl minors per < desired_count count)%nat \/
+    (t = 0%nat /\ part_short kind pl minors count shared = true).
   Proof.
     unfold alloc_type_on. fold l. fold pl.
-    rewrite (alloc_core_ext false infos t (used l) pl lp) by reflexivity.
+    rewrite (alloc_core_ext kind false infos t (used l) pl lp) by reflexivity.
     intros H. rewrite (eligible_count_ext pl lp) by reflexivity.
+    rewrite (part_short_ext kind pl lp) by reflexivity.
     pose proof (ledger_p_fs l (preempt_of l victims) (lg_fs _ G)) as FSp.
     pose proof (ledger_p_used_nonneg l (preempt_of l victims) (lgood_used_nonneg _ G)) as Hup.
-    exact (alloc_core_complete infos t (used l) lp FSp (lg_tot _ G) Hup per count shared false Hcount H).
+    exact (alloc_core_complete kind infos t (used l) lp FSp (lg_tot _ G) Hup per count shared false Hcount H).
   Qed.
 End PreemptType.
 
-Lemma preempt_verdict_unfold ls infos rq victims :
-  preempt_verdict ls infos rq victims =
+Lemma preempt_verdict_unfold kind ls infos rq victims :
+  preempt_verdict kind ls infos rq victims =
   let refused t := match treq_of rq t with
                    | TReq per count sh =>
-                       match alloc_type_on ls infos t per count sh victims with
+                       match alloc_type_on kind ls infos t per count sh victims with
                        | None => true | Some _ => false end
                    | _ => false end in
   if is_invalid (treq_of rq 0) || (is_invalid (treq_of rq 1) || (is_invalid (treq_of rq 2) || false))
@@ -168,16 +176,25 @@ Lemma preempt_verdict_unfold ls infos rq victims :
   then c_skip
   else if no_device_t ls 0 rq || (no_device_t ls 1 rq || (no_device_t ls 2 rq || false))
   then c_unresolvable
+  else if part_unsupported kind (treq_of rq 0) then c_unresolvable
   else if refused 0%nat || (refused 1%nat || (refused 2%nat || false))
   then c_unsched
   else c_ok.
 Proof. reflexivity. Qed.
 
-Lemma check_preempt_model k ls infos rq victims :
-  k_prev k = ls -> k_infos k = infos -> (forall t, lgood (ledger_of ls t)) ->
-  check_preempt k rq victims (out_code (preempt_verdict ls infos rq victims)) = 0.
+Lemma sched_ok_pfit kind ls rq t per count sh :
+  sched_ok kind ls rq = true -> treq_of rq t = TReq per count sh ->
+  pfit_t kind t (total (ledger_of ls t)) per sh = true.
 Proof.
-  intros E1 E2 G. unfold check_preempt. rewrite E1, E2. cbn [o_code out_code].
+  intros S E. unfold pfit_t. destruct t as [|t]; [|reflexivity]. cbn [Nat.eqb negb orb].
+  unfold sched_ok in S. now rewrite E in S.
+Qed.
+
+Lemma check_preempt_model k kind ls infos rq victims :
+  k_prev k = ls -> k_infos k = infos -> k_kind k = kind -> (forall t, lgood (ledger_of ls t)) ->
+  check_preempt k rq victims (out_code (preempt_verdict kind ls infos rq victims)) = 0.
+Proof.
+  intros E1 E2 E3 G. unfold check_preempt. rewrite E1, E2, E3. cbn [o_code out_code].
   rewrite preempt_verdict_unfold. cbn zeta. cbn [existsb forallb type_ids].
   destruct (is_invalid (treq_of rq 0) || _) eqn:I.
   { unfold c_unresolvable. cbn [Z.eqb Pos.eqb]. reflexivity. }
@@ -188,23 +205,29 @@ Proof.
     apply orb_false_iff in Q as [Q0 Q]. apply orb_false_iff in Q as [Q1 Q]. apply orb_false_iff in Q as [Q2 _].
     now rewrite I0, I1, I2, Q0, Q1, Q2. }
   destruct (no_device_t ls 0 rq || _) eqn:N.
+  { unfold c_unresolvable. cbn [Z.eqb Pos.eqb]. unfold chk. cbn [orb]. reflexivity. }
+  destruct (part_unsupported kind (treq_of rq 0)) eqn:Pu.
   { unfold c_unresolvable. cbn [Z.eqb Pos.eqb]. unfold chk. now rewrite orb_true_r. }
   assert (Short : forall t, match treq_of rq t with
                    | TReq per count sh =>
-                       match alloc_type_on ls infos t per count sh victims with
+                       match alloc_type_on kind ls infos t per count sh victims with
                        | None => true | Some _ => false end
-                   | _ => false end = true -> preempt_short_t ls infos victims t rq = true).
+                   | _ => false end = true -> preempt_short_t kind ls infos victims t rq = true).
   { intros t. unfold preempt_short_t. destruct (treq_of rq t) as [| |per count sh] eqn:E; try discriminate.
-    destruct (alloc_type_on ls infos t per count sh victims) eqn:A; [discriminate|]. intros _.
-    apply Nat.ltb_lt. apply treq_spec in E as [Hc _]. eapply alloc_type_on_complete; eauto. }
-  assert (Enough : forall t, match treq_of rq t with
+    destruct (alloc_type_on kind ls infos t per count sh victims) eqn:A; [discriminate|]. intros _.
+    apply treq_spec in E as [Hc _].
+    destruct (alloc_type_on_complete kind ls infos t victims (G t) per count sh Hc A) as [Hlt|[-> Hp]].
+    - apply orb_true_iff. left. now apply Nat.ltb_lt.
+    - apply orb_true_iff. right. now rewrite Hp. }
+  assert (Enough : sched_ok kind ls rq = true -> forall t, match treq_of rq t with
                    | TReq per count sh =>
-                       match alloc_type_on ls infos t per count sh victims with
+                       match alloc_type_on kind ls infos t per count sh victims with
                        | None => true | Some _ => false end
                    | _ => false end = false -> preempt_enough_t ls infos victims t rq = true).
-  { intros t. unfold preempt_enough_t. destruct (treq_of rq t) as [| |per count sh] eqn:E; auto.
-    destruct (alloc_type_on ls infos t per count sh victims) eqn:A; [|discriminate]. intros _.
-    apply Nat.leb_le. apply treq_spec in E as [Hc _]. eapply alloc_type_on_sound; eauto. }
+  { intros S t. unfold preempt_enough_t. destruct (treq_of rq t) as [| |per count sh] eqn:E; auto.
+    destruct (alloc_type_on kind ls infos t per count sh victims) eqn:A; [|discriminate]. intros _.
+    apply Nat.leb_le. pose proof (sched_ok_pfit kind ls rq t per count sh S E) as Pf.
+    apply treq_spec in E as [Hc _]. eapply alloc_type_on_sound; eauto. }
   match goal with |- context [if ?b then c_unsched else c_ok] => destruct b eqn:R end.
   - unfold c_unsched. cbn [Z.eqb Pos.eqb]. unfold chk.
     apply orb_true_iff in R as [R|R]; [rewrite (Short _ R); reflexivity|].
@@ -212,8 +235,9 @@ Proof.
     apply orb_true_iff in R as [R|R]; [|discriminate].
     rewrite (Short _ R). now rewrite !orb_true_r.
   - unfold c_ok. cbn [Z.eqb]. unfold chk.
+    destruct (sched_ok kind ls rq) eqn:S; [|reflexivity]. cbn [negb orb].
     apply orb_false_iff in R as [R0 R]. apply orb_false_iff in R as [R1 R]. apply orb_false_iff in R as [R2 _].
-    now rewrite (Enough _ R0), (Enough _ R1), (Enough _ R2).
+    now rewrite (Enough eq_refl _ R0), (Enough eq_refl _ R1), (Enough eq_refl _ R2).
 Qed.
 
 (* ------------------------------------------------------------------ what the dry-run's free map means *)
